@@ -360,7 +360,8 @@ class Driver:
         d = SourceDef(op["id"], *strs)
         w0 = self.iow0()
         rc = self.fn("source_def")(self.wr, ct.byref(d))
-        self.emit({"e": "SourceDef", "id": op["id"], "s": [str_tok(s) for s in strs], "rc": rc, "w": self.wspan(w0)})
+        self.emit({"e": "SourceDef", "id": op["id"], "s": [str_tok(s) for s in strs], "maxlen": max([len(s) for s in strs if s is not None] + [0]),
+                   "rc": rc, "w": self.wspan(w0)})
 
     def op_signal(self, op):
         name, units = make_str(op.get("name")), make_str(op.get("units"))
@@ -384,6 +385,7 @@ class Driver:
                    "bits": DTYPES[op["dt"]][1] if op["dt"] in DTYPES else 0, "rate": op.get("rate", 1000),
                    "spd": op.get("spd", 0), "sdf": op.get("sdf", 0), "eps": op.get("eps", 0), "sumdf": op.get("sumdf", 0),
                    "adf": op.get("adf", 0), "udf": op.get("udf", 0), "name": str_tok(name), "units": str_tok(units),
+                   "maxlen": max([len(s) for s in (name, units) if s is not None] + [0]),
                    "rc": rc, "w": self.wspan(w0)})
 
     def op_fsr(self, op):
